@@ -107,6 +107,63 @@ class Builder:
             self.libs[key] = info
         return info
 
+    def drlib(self, variant="asan"):
+        """DAG Recorder: src/profiler/*.c -> libdr.a (+ hook runtime and harness kit objects), dag2any"""
+        key = ("dr", variant)
+        with self.lock:
+            if key in self.libs:
+                return self.libs[key]
+        d = os.path.join(self.root, "dr-" + variant)
+        os.makedirs(d, exist_ok=True)
+        prof = os.path.join(SRC, "profiler")
+        vflags = list(VARIANT_FLAGS[variant])
+        if variant == "asan":
+            # dr_accumulate_stats indexes logical_node_counts[kind] with kind = section/task (one/two slots past a
+            # 4-element array inside the same struct) and the 45-byte file header misaligns everything behind it:
+            # neither is what C18/C19 state (DESIGN 3.1)
+            vflags += ["-fno-sanitize=bounds,alignment"]
+        inc = ["-I" + prof] + self.inc_flags()
+        srcs = ["dag_recorder.c", "dag_recorder_no_inl.c", "chronological.c", "dr_dump.c", "gen_stat.c", "gen_dot.c",
+                "gen_gpl.c", "gen_text.c", "read_dag.c", "options.c", "interpolate_counters.c", "papi_counters.c"]
+        jobs = [(["gcc", "-c"] + vflags + ["-D_GNU_SOURCE", "-DHAVE_CONFIG_H"] + inc + [os.path.join(prof, x), "-o", os.path.join(d, x[:-2] + ".o")],
+                 os.path.join(d, x[:-2] + ".o")) for x in srcs]
+        rto = os.path.join(d, "myth_verif_rt.o")
+        jobs.append((["gcc", "-c"] + vflags + ["-D_GNU_SOURCE", "-DMYTH_VERIF"] + inc + [os.path.join(VERIF, "rt", "myth_verif_rt.c"), "-o", rto], rto))
+        hko = os.path.join(d, "hk.o")
+        jobs.append((["gcc", "-c"] + vflags + inc + [os.path.join(VERIF, "harness", "hk.c"), "-o", hko], hko))
+
+        def one(j):
+            r = sh(j[0])
+            if r.returncode != 0:
+                raise HarnessError("compile failed: %s\n%s" % (" ".join(j[0]), r.stdout[-3000:]))
+            return j[1]
+        with ThreadPoolExecutor(max_workers=NCPU) as ex:
+            objs = list(ex.map(one, jobs))
+        ar = os.path.join(d, "libdr.a")
+        r = sh(["ar", "rcs", ar] + [o for o in objs if not o.endswith(("myth_verif_rt.o", "hk.o"))])
+        if r.returncode != 0:
+            raise HarnessError("ar failed: " + r.stdout)
+        info = {"dir": d, "archive": ar, "variant": variant, "vflags": vflags, "inc": inc, "rt": rto, "hk": hko}
+        exe = os.path.join(d, "dag2any")
+        cmd = ["gcc"] + vflags + ["-D_GNU_SOURCE", "-DHAVE_CONFIG_H", "-DDAG_RECORDER=2", "-I" + os.path.join(prof, "dag2any")] + inc + \
+              [os.path.join(prof, "dag2any", "dag2any.c"), ar, "-lsqlite3", "-lpthread", "-o", exe]
+        r = sh(cmd)
+        if r.returncode != 0:
+            raise HarnessError("dag2any build failed: %s\n%s" % (" ".join(cmd), r.stdout[-3000:]))
+        info["dag2any"] = exe
+        with self.lock:
+            self.libs[key] = info
+        return info
+
+    def drharness(self, src, dr):
+        exe = os.path.join(dr["dir"], os.path.splitext(src)[0])
+        cmd = ["gcc"] + dr["vflags"] + ["-D_GNU_SOURCE", "-DMYTH_VERIF", "-DDAG_RECORDER=2"] + dr["inc"] + \
+              [os.path.join(VERIF, "harness", src), dr["hk"], dr["rt"], dr["archive"], "-lpthread", "-ldl", "-lrt", "-o", exe]
+        r = sh(cmd)
+        if r.returncode != 0:
+            raise HarnessError("harness compile failed: %s\n%s" % (" ".join(cmd), r.stdout[-4000:]))
+        return exe
+
     def plain(self, src, lib, out, wrap_ld=False, asan=False):
         """compile a plain program (no harness kit, no hook runtime API): optionally linked against the
         ld-wrap library archive of `lib` (which carries the hook runtime the library itself calls)"""
@@ -413,7 +470,7 @@ def finish(prop, tier, seed, level, t0, cases, coverage, assumptions, builder=No
                             "stdout_tail": c.out[-4000:], "stderr_tail": c.err[-6000:],
                             "note": "re-run with the same command and environment; schedule-driven "
                                     "violations replay statistically (same seed and profile, repeat N times)"})
-            json.dump(rep, open(path, "w"), indent=1)
+            json.dump(rep, open(path, "w"), indent=1, default=lambda o: "<%s %s>" % (type(o).__name__, getattr(o, "tag", "")))
             replay_paths.append(path)
             if len(replay_paths) <= 10:
                 print("VIOLATION property=%s replay=%s" % (prop, path))
